@@ -31,7 +31,7 @@
 (*                   and the last one,                                      *)
 (*            list : [cnt, at (sequence, slot i at position i+1), idx       *)
 (*                    (token -> slot or -1), allowed (token -> BOOLEAN),    *)
-(*                    enabled]]                                             *)
+(*                    enabled, getter_ok (the two getters did not trap)]]   *)
 (***************************************************************************)
 EXTENDS Integers, Sequences, FiniteSets
 
@@ -149,6 +149,7 @@ Cons(m, g, ev) ==
     [] m = "C19_allowance" -> AlMapEq(obs.al, ExpAl(g, o, now))
     [] m = "C19_allowlist" -> Accepted(g.list, o.tok)
     [] m = "C19_allowed_getter" ->
+         /\ obs.list.getter_ok                      \* the getters answer (do not trap)
          /\ \A t \in g.toks : obs.list.allowed[t] = Accepted(L, t)
          /\ obs.list.enabled = (L # {})
     [] m = "C19_list_enum" -> ListEnumOk(L, obs.list, g.toks)
